@@ -200,7 +200,7 @@ def cases():
                     els[i] = ('item', els[i][1], q + 'no end', S('no end', 1))
                     add('missing endquote', '%s %s %s' % (hn, q, where), doc, 106, els[i], content(doc), next_el=following(doc, els, i) if i + 1 < len(els) else None)
             # OVERLENGTH_LINE in several lexical contexts (2049 characters; 2048 must pass silently)
-            for ctx in ('bare', 'quoted', 'comment', 'blanks', 'supplementary', 'text-first', 'text-middle', 'text-last', 'triple-middle', 'triple-last'):
+            for ctx in ('bare', 'quoted', 'comment', 'blanks', 'supplementary', 'text-first', 'text-middle', 'text-last', 'triple-first', 'triple-oneline', 'triple-middle', 'triple-last'):
                 for n, code in ((2048, None), (2049, 108)):
                     doc = copy.deepcopy(doc0)
                     els, i, where = top_positions(doc)[pos_idx]
@@ -229,6 +229,12 @@ def cases():
                         v = 'first\n' + 'v' * n
                         els[i] = ('item', name, '\n;' + v + '\n;', S(v, 1))
                         off = 2
+                    elif ctx == 'triple-first':
+                        v = 'v' * (n - len(name) - 4) + '\nb'
+                        els[i] = ('item', name, "'''" + v + "'''", S(v, 1))
+                    elif ctx == 'triple-oneline':
+                        v = 'v' * (n - len(name) - 7)
+                        els[i] = ('item', name, '"""' + v + '"""', S(v, 1))
                     elif ctx == 'triple-middle':
                         v = 'a\n' + 'v' * n + '\nb'
                         els[i] = ('item', name, "'''" + v + "'''", S(v, 1))
@@ -508,7 +514,7 @@ def main():
                           {'class': cls, 'case': label, 'document': text[:3000] if len(text) < 3000 else text[:1200] + ' ...', 'message': msg})
     return rep.finish({'evaluations': total, 'distinct_nontrivial': len(cs) - len(hosts()),
                        'rule': 'defect classes of the recovery table planted at the first / middle / last element of the first block and of its first save frame, inside loops, lists and tables, and at end of input, in %d host documents; '
-                               'per case: first callback code, line window [defect line, line of the following token], return code, and the dump after the documented recovery; line-length boundary 2048 / 2049 characters in 10 lexical contexts (bare, quoted, comment, blanks, supplementary characters, first / middle / last line of a text field, middle / last line of a triple-quoted string)' % len(hosts()),
+                               'per case: first callback code, line window [defect line, line of the following token], return code, and the dump after the documented recovery; line-length boundary 2048 / 2049 characters in 12 lexical contexts (bare, quoted, comment, blanks, supplementary characters, first / middle / last line of a text field, first / middle / last line of a triple-quoted string, one-line triple-quoted string)' % len(hosts()),
                        'samples': [cs[0][2][:200], cs[len(cs) // 2][2][:200]], 'classes': classes, 'exhaustive': True},
                       ['classes that cannot be planted without triggering another documented error first (invalid block / frame code, wrong encoding, missing prefix, invalid bare value) are not planted here',
                        'where the table does not determine the content (disallowed character replacement, null key, how much an unclosed text field swallows) only code and line are checked'])
